@@ -16,7 +16,6 @@ import (
 	"os"
 	"runtime"
 	"runtime/debug"
-	"runtime/pprof"
 	"sort"
 	"strconv"
 	"strings"
@@ -428,7 +427,7 @@ func (p plan) shards(pi int) []shard {
 
 // collisionPairs: (X by one instance, Y later by ANOTHER instance) pairs through which hidden sharing would
 // show; the number of explored words containing each pair is reported as evidence that the collisions happen.
-var collisionPairs = [][2]string{{"ddrop", "minit"}, {"edrop", "tinit"}, {"store", "store"}, {"store", "write"}, {"store", "fill"},
+var collisionPairs = [][2]string{{"ddrop", "minit"}, {"edrop", "tinit"}, {"store", "store"}, {"store", "write"}, {"store", "bulk"}, {"store", "host"}, {"host", "host"}, {"exit", "host"},
 	{"grow", "grow"}, {"grow", "store"}, {"gset", "gset"}, {"tset", "tset"}, {"tgrow", "tgrow"}, {"tinit", "tset"}, {"open", "open"},
 	{"open", "close"}, {"open", "renumber"}, {"renumber", "open"}, {"close", "open"}, {"write", "write"}, {"entropy", "entropy"},
 	{"exit", "store"}, {"exit", "write"}, {"exit", "minit"}, {"exit", "tinit"}, {"exit", "open"}}
@@ -762,11 +761,6 @@ func main() {
 	run := fw.Start("C11", "model_checking")
 	dirs := newHostDirs()
 	defer os.RemoveAll(dirs.root)
-	if len(os.Args) > 2 && os.Args[2] == "bench" {
-		bench(dirs)
-		os.RemoveAll(dirs.root)
-		return
-	}
 	ps := plans(run.Thorough())
 	if len(os.Args) > 2 && os.Args[2] == "count" {
 		// size of the word space per plan, by enumeration without execution (used for NOTES.md)
@@ -876,43 +870,4 @@ func replay() {
 	fmt.Printf("REPRODUCED: instance %d %s = %s, lone instance gives %s (signature %s)\n", m.inst, m.field, m.got, m.want, m.signature(doc.Replay.Cfg))
 	os.RemoveAll(dirs.root)
 	os.Exit(1)
-}
-
-func bench(dirs *hostDirs) {
-	if os.Getenv("C11_PROF") != "" {
-		f, _ := os.Create(os.Getenv("C11_PROF"))
-		pprof.StartCPUProfile(f)
-		w := newWorld(cfg{Engine: os.Getenv("C11_ENG"), RT: "one", Variants: []int{0, 0}, Policy: "lazy"}, dirs, -1)
-		for i := 0; i < 20000; i++ {
-			w.runWord([]step{{0, 0}, {1, 4}, {0, 11}, {1, 12}})
-		}
-		pprof.StopCPUProfile()
-		f.Close()
-		return
-	}
-	for _, eng := range []string{"compiler", "interpreter"} {
-		t := time.Now()
-		const n = 200
-		for i := 0; i < n; i++ {
-			runLone(loneKey{eng, 0, 0}, dirs, []int{0, 1, 2, 3})
-		}
-		fmt.Printf("%s: fresh lone world+4 steps: %v each\n", eng, time.Since(t)/n)
-		for _, rt := range []string{"one", "cache-mem", "cache-dir2"} {
-			t = time.Now()
-			w := newWorld(cfg{Engine: eng, RT: rt, Variants: []int{0, 0}, Policy: "lazy"}, dirs, -1)
-			fmt.Printf("%s/%s: world build %v\n", eng, rt, time.Since(t))
-			t = time.Now()
-			for i := 0; i < 2000; i++ {
-				w.runWord([]step{{0, 0}, {1, 4}, {0, 11}, {1, 12}})
-			}
-			fmt.Printf("%s/%s: reused world word of 4: %v each\n", eng, rt, time.Since(t)/2000)
-			w.close()
-		}
-	}
-	r, o := runLone(loneKey{"compiler", 0, 0}, dirs, []int{0, 1, 2, 3, 4, 5, 4, 6, 7, 8, 9, 10, 9, 11, 12, 12, 13, 12, 14, 12, 15, 15, 16, 0})
-	fmt.Println(r)
-	fmt.Printf("%+v\n", o)
-	r, o = runLone(loneKey{"interpreter", 0, 0}, dirs, []int{0, 1, 2, 3, 4, 5, 4, 6, 7, 8, 9, 10, 9, 11, 12, 12, 13, 12, 14, 12, 15, 15, 16, 0})
-	fmt.Println(r)
-	fmt.Printf("%+v\n", o)
 }
